@@ -802,7 +802,14 @@ fn c03_boundary_positions(l: u64) -> Vec<String> {
     v.push(l / 2);
     v.sort_unstable();
     v.dedup();
-    v.into_iter().map(|x| x.to_string()).collect()
+    let mut out: Vec<String> = v.iter().map(|x| x.to_string()).collect();
+    // 1*DIGIT allows leading zeros: the same values written with 21 and 40 digits
+    for x in [0u128, 1, 5, l.saturating_sub(1), l, l + 1] {
+        out.push(format!("{:021}", x));
+        out.push(format!("{:040}", x));
+        out.push(format!("0{}", x));
+    }
+    out
 }
 
 impl Prop for C03 {
@@ -1434,6 +1441,9 @@ fn c06_hdr_sets() -> Vec<Vec<(String, Vec<u8>)>> {
         vec![("content-type".into(), b"application/octet-stream".to_vec()), ("content-language".into(), b"en".to_vec()), ("x-thing".into(), b"a: b".to_vec())],
         vec![("x-long".into(), vec![b'v'; 4096])],
         vec![("x-dup".into(), b"one".to_vec()), ("x-dup".into(), b"two".to_vec()), ("content-type".into(), b"text/html; charset=utf-8".to_vec())],
+        // an entity that is itself a stored multipart document (boundary colliding with ours)
+        vec![("content-type".into(), b"multipart/mixed; boundary=Boundary_42".to_vec())],
+        vec![("content-type".into(), b"multipart/byteranges; boundary=B".to_vec()), ("content-encoding".into(), b"gzip".to_vec())],
     ]
 }
 
@@ -1957,6 +1967,10 @@ pub fn c13_case(rng: &mut Rng) -> ServeCase {
     }
     if rng.chance(2, 3) {
         ent.mtime = Some((FIXED_SEC, *rng.pick(&[0u32, 500_000_000])));
+        if rng.chance(1, 6) {
+            // far future: year 10000 and beyond (cannot be written as an HTTP-date; must be clamped)
+            ent.mtime = Some((*rng.pick(&[253_402_300_800u64, 253_402_300_799, 1_000_000_000_000, 32_503_680_000]), 0));
+        }
     }
     if rng.chance(1, 2) {
         ent.hdrs.push(("content-type".into(), b"text/plain".to_vec()));
@@ -2243,7 +2257,7 @@ fn c14_run(h: &History, sink: &mut Sink) -> (Verdict, Option<u64>, Value) {
 }
 
 fn c14_mtimes(now_sec: u64) -> Vec<Option<(u64, u32)>> {
-    vec![None, Some((0, 0)), Some((FIXED_SEC, 0)), Some((FIXED_SEC, 1_000_000)), Some((FIXED_SEC, 1)), Some((FIXED_SEC, 999_999_999)), Some((now_sec + 86_400, 250_000_000)), Some((now_sec + 3, 0)), Some((now_sec + 3600, 999_999_999))]
+    vec![None, Some((0, 0)), Some((FIXED_SEC, 0)), Some((FIXED_SEC, 1_000_000)), Some((FIXED_SEC, 1)), Some((FIXED_SEC, 999_999_999)), Some((now_sec + 86_400, 250_000_000)), Some((now_sec + 3, 0)), Some((now_sec + 3600, 999_999_999)), Some((253_402_300_800, 0)), Some((1_000_000_000_000, 5))]
 }
 
 fn c14_firsts() -> Vec<Vec<(&'static str, &'static [u8])>> {
@@ -2267,20 +2281,20 @@ impl Prop for C14 {
         "exploration"
     }
     fn rule(&self, _: &Ctx) -> String {
-        "all two-request histories over: ETag {absent, strong, weak} x mtime {absent, epoch, whole second, +1ms, +1ns, +999999999ns, now+1day, now+3s, now+1h} x entity header sets {none, 1, 3, repeated name} x first request {plain, single range, multi range, unsatisfiable, failing If-Match, matching If-None-Match, multi/single range + If-Range} x all 32 subsets of echoed validators (If-None-Match, If-Modified-Since, If-Match, If-Unmodified-Since, If-Range+Range) x GET/HEAD. Non-trivial = distinct history whose first response headers were checked and (if anything was echoed) whose second status was compared with the round-trip rule".into()
+        "all two-request histories over: ETag {absent, strong, weak} x mtime {absent, epoch, whole second, +1ms, +1ns, +999999999ns, now+1day, now+3s, now+1h, year 10000, year 33658} x entity header sets {none, 1, 3, repeated name} x first request {plain, single range, multi range, unsatisfiable, failing If-Match, matching If-None-Match, multi/single range + If-Range} x all 32 subsets of echoed validators (If-None-Match, If-Modified-Since, If-Match, If-Unmodified-Since, If-Range+Range) x GET/HEAD. Non-trivial = distinct history whose first response headers were checked and (if anything was echoed) whose second status was compared with the round-trip rule".into()
     }
     fn n_blocks(&self, ctx: &Ctx) -> usize {
-        3 * 9 * 4 + if ctx.leg.slow() { 0 } else { 10 }
+        3 * 11 * 4 + if ctx.leg.slow() { 0 } else { 10 }
     }
     fn exhaustive(&self, _: &Ctx) -> bool {
         true
     }
     fn run_block(&self, b: usize, sink: &mut Sink) {
         let now = std::time::SystemTime::now().duration_since(std::time::UNIX_EPOCH).unwrap().as_secs();
-        if b >= 3 * 9 * 4 {
+        if b >= 3 * 11 * 4 {
             // entity whose metadata callbacks each straddle a second boundary: Date and
             // Last-Modified must still be consistent (one block per case: they sleep)
-            let k = b - 3 * 9 * 4;
+            let k = b - 3 * 11 * 4;
             let firsts = c14_firsts();
             let first = &firsts[[0usize, 1, 3, 4, 5][k % 5]];
             let mtime = if k < 5 { Some((now + 86_400, 250_000_000)) } else { Some((FIXED_SEC, 500_000_000)) };
@@ -2300,9 +2314,9 @@ impl Prop for C14 {
         }
         let etags: [Option<&[u8]>; 3] = [None, Some(b"\"v1\""), Some(b"W/\"v1\"")];
         let etag = etags[b % 3];
-        let mtime = c14_mtimes(now)[(b / 3) % 9];
+        let mtime = c14_mtimes(now)[(b / 3) % 11];
         let hdr_sets = c06_hdr_sets();
-        let hdrs = hdr_sets[[0usize, 1, 2, 4][b / 27]].clone();
+        let hdrs = hdr_sets[[0usize, 1, 2, 4][b / 33]].clone();
         let slow = sink.ctx.leg.slow();
         for first in c14_firsts() {
             for echo in 0u8..32 {
